@@ -2,17 +2,25 @@
    Directives: ExtrOcamlBasic only (bool, option, list, prod, unit, sumbool -> OCaml natives);
    N, Z, positive stay Coq datatypes. *)
 From Coq Require Extraction ExtrOcamlBasic.
-From Schwifty Require Import Lib.Base Lib.Regex Model.Clean Model.Data Model.Iban Model.Bic Model.Bban Model.Registry Model.Lookup Lib.Json.
-From Schwifty Require Import Gen.Env Gen.IbanData Gen.IbanCfg Gen.BicCfg.
-From Schwifty Require Import Spec.Iso13616 Spec.Iso9362 Spec.Defects Spec.RegistrySpec.
+From Schwifty Require Import Lib.Base Lib.Regex Model.Clean Model.Data Model.Iban Model.Bic Model.Bban Model.Registry Model.Lookup Model.National Model.Algorithms Lib.Json.
+From Schwifty Require Import Gen.Env Gen.IbanData Gen.IbanCfg Gen.BicCfg Gen.ChecksumCfg.
+From Schwifty Require Import Spec.Iso13616 Spec.Iso9362 Spec.Defects Spec.RegistrySpec Spec.NationalPublished.
 
-Definition national_stub (cc bban : text) : outcome bool := Ok true.
+Definition german_stub (cls : text) (accepts : list text) : option algo := None.
+Definition x_find_algo := find_algo the_env nd_runs (ic_alphabet the_iban_cfg) registered german_stub.
+Definition x_national (R : banks) := validate_national the_table x_find_algo (bank_code_entries R).
 
 Definition x_clean := clean the_env.
-Definition x_iban_new := iban_new the_env the_iban_cfg the_table national_stub.
-Definition x_iban_validate := iban_validate the_env the_iban_cfg the_table national_stub.
-Definition x_iban_is_valid := iban_is_valid the_env the_iban_cfg the_table national_stub.
-Definition x_iban_from_bban := iban_from_bban the_env the_iban_cfg the_table national_stub.
+Definition x_iban_new (R : banks) := iban_new the_env the_iban_cfg the_table (x_national R).
+Definition x_iban_validate (R : banks) := iban_validate the_env the_iban_cfg the_table (x_national R).
+Definition x_iban_is_valid (R : banks) := iban_is_valid the_env the_iban_cfg the_table (x_national R).
+Definition x_iban_from_bban (R : banks) := iban_from_bban the_env the_iban_cfg the_table (x_national R).
+Definition x_from_components := from_components the_env (ic_components the_iban_cfg) the_table x_find_algo.
+Definition x_generate (R : banks) (cc bank account branch : text) : outcome text :=
+  do b <- x_from_components cc [(k_bank, bank); (k_branch, branch); (k_account, account)];
+  x_iban_from_bban R cc b false false.
+Definition s_published_ok := published_ok.
+Definition s_has_published (cc : text) : bool := match published cc with Some _ => true | None => false end.
 Definition x_iban_formatted := iban_formatted.
 Definition x_pat_apply := pat_apply.
 Definition x_chars_pat := ic_chars_pat the_iban_cfg.
@@ -75,7 +83,7 @@ Definition s_wf_country (cc : text) : bool :=
 Extraction Language OCaml.
 Set Extraction KeepSingleton.
 Extraction "extract/model.ml"
-  x_clean x_iban_new x_iban_validate x_iban_is_valid x_iban_from_bban x_iban_formatted
+  x_clean x_iban_new x_iban_validate x_iban_is_valid x_iban_from_bban x_iban_formatted x_national x_from_components x_generate s_published_ok s_has_published
   x_pat_apply x_chars_pat x_chars_method x_format_method x_row_regex
   s_iso_ok s_check_digits s_conforms
   x_bic_new x_bic_validate x_bic_is_valid x_bic_formatted x_bic_parts x_bic_pat s_iso9362_ok s_iban_verdict s_bic_verdict
